@@ -77,8 +77,22 @@ def component_signals(L):
 def make_recording(root):
     L, dt = root["L"], root["dt"]
     ns, ew, vt = (np.array(a, copy=True) for a in component_signals(L))
+    deg = DEG_TYPES[root.get("deg_type", "plain")](root["deg"])
     return SeismicRecording3C(TimeSeries(ns, dt), TimeSeries(ew, dt), TimeSeries(vt, dt),
-                              degrees_from_north=root["deg"], meta=root_meta())
+                              degrees_from_north=deg, meta=root_meta())
+
+
+# the orientation as an element of an integer azimuth array, a single-precision value, a 0-d array ...
+DEG_TYPES = {"plain": lambda v: v, "np.int64": np.int64, "np.int32": np.int32, "np.float32": np.float32,
+             "np.float64": np.float64, "array0d": lambda v: np.array(float(v))}
+
+
+def own_time_vectors(rec):
+    """The caller owns what time() returned: shift it in place (an absolute time axis for a plot)."""
+    for c in COMPONENTS:
+        t = getattr(rec, c).time()
+        if isinstance(t, np.ndarray) and t.flags.writeable:
+            t += 1000.0
 
 
 # ---------------------------------------------------------------------------
@@ -267,7 +281,7 @@ class System:
         return (arr_digest(r.ns.amplitude, r.ew.amplitude, r.vt.amplitude),
                 tuple(float(getattr(r, c).dt_in_seconds) for c in COMPONENTS),
                 float(r.degrees_from_north),
-                json.dumps(norm_meta(r.meta), sort_keys=True))
+                json.dumps(norm_meta(r.meta), sort_keys=True, default=repr))
 
     def observe(self, h):
         # "touch": checkpoint the recording to disk between operations, the way a user saves
@@ -277,6 +291,7 @@ class System:
             h.rec.save(os.path.join(self.tmpdir, "touch.json"))
         except Exception:       # noqa: BLE001 - judged by the invariant's own save/load
             pass
+        own_time_vectors(h.rec)
         return None
 
     # ---- invariant --------------------------------------------------------
@@ -616,11 +631,47 @@ def _containers(x):
 # runner interface
 
 def _recordings():
-    return [dict(L=L, dt=dt, deg=deg) for L in LENGTHS for dt in DTS for deg in DEPLOYED]
+    out = [dict(L=L, dt=dt, deg=deg) for L in LENGTHS for dt in DTS for deg in DEPLOYED]
+    out += [dict(L=64, dt=0.01, deg=deg, deg_type=t) for deg, t in ((33, "np.int64"), (400, "np.int32"),
+                                                                    (77.5, "np.float32"), (33, "np.float64"),
+                                                                    (33, "array0d"))]
+    return out
+
+
+# ---------------------------------------------------------------------------
+# long records: trim where the sample times are many thousands of time steps (an hour at 100 Hz)
+
+LONG = [dict(L=400001, dt=0.01), dict(L=270000, dt=1 / 75), dict(L=131072, dt=0.005)]
+
+
+def long_root(root, ctx):
+    L, dt = root["L"], root["dt"]
+    base = ((np.arange(L) * 7919) % 1013) / 1013.0 - 0.5
+    sysm = System(dict(root, prefix=[]))
+    own = TimeSeries(np.array(base, copy=True), dt)
+    own_time_vectors(SeismicRecording3C(own, TimeSeries(base + 1.0, dt), TimeSeries(base * 2.0, dt)))
+    m = L - 1
+    extra = [("long:mid-on-sample", float((m // 2) * dt), float((m // 2 + 1000) * dt)),
+             ("long:mid-between", float((m // 2 + 0.3) * dt), float((m - 1000.7) * dt)),
+             ("long:late-third", float((2 * m // 3 + 0.45) * dt), float((m - 0.55) * dt)),
+             ("long:round-seconds", float(round(0.45 * m * dt)), float(round(0.75 * m * dt)))]
+    for label, a, b in intervals(L, dt) + extra:
+        exp = RT.expected(L, dt, a, b)
+        ctx.count("states")
+        ctx.count("long_trim_cases")
+        sysm._trim_one(ctx, root, [], "TimeSeries.trim", label, a, b, exp, TimeSeries(np.array(base, copy=True), dt),
+                       (None,))
+        if label in ("on-sample", "between", "long:mid-between", "long:round-seconds", "end-just-beyond"):
+            rec = SeismicRecording3C(TimeSeries(np.array(base, copy=True), dt), TimeSeries(base + 1.0, dt),
+                                     TimeSeries(base * 2.0, dt))
+            sysm._trim_one(ctx, root, [], "SeismicRecording3C.trim", label, a, b, exp, rec, COMPONENTS)
+    ctx.count("validated")
+    ctx.nontrivial_case(("long", L, dt))
 
 
 def roots(tier, seed):
     out = []
+    out += [dict(kind="long", **r) for r in (LONG[:2] if tier == "quick" else LONG)]
     if tier == "quick":
         for r in _recordings():
             out.append(dict(depth=2, prefix=[], **r))
@@ -636,12 +687,15 @@ def roots(tier, seed):
 
 
 def run_root(root, ctx, tier):
+    if root.get("kind") == "long":
+        long_root(root, ctx)
+        return
     tmp = tempfile.mkdtemp(prefix="hvmc-c18-")
     try:
         sysm = System(root, tmpdir=tmp)
         seen = explorer.bfs(sysm, root, root["depth"], ctx, key_prefix="C18",
                             check_determinism=(tier == "thorough"), touch=True)
-        ctx.nontrivial_case((root["L"], root["dt"], root["deg"], root.get("prefix", [])))
+        ctx.nontrivial_case((root["L"], root["dt"], root["deg"], root.get("deg_type"), root.get("prefix", [])))
         ctx.notes["max_history_length"] = max(ctx.notes.get("max_history_length", 0),
                                               len(root.get("prefix", [])) + root["depth"])
         if len(ctx.samples) < 2:
@@ -678,7 +732,7 @@ def describe(tier):
              "save->load, 4 copy routes (copy constructor, TimeSeries copy constructor x3, constructor, "
              "split with 2 window lengths) with shares_memory and writes on both sides, and 13 trim "
              "intervals on SeismicRecording3C and TimeSeries against exact integer arithmetic; a case "
-             "is non-trivial/distinct by (L, dt, orientation, first operation)",
+             "is non-trivial/distinct by (L, dt, orientation, first operation); five more roots give the deployed orientation as np.int64/np.int32/np.float32/np.float64/0-d array; the time vectors returned by time() are shifted in place by the harness between operations; family long: 13 + 4 trim intervals on TimeSeries (5 of them also on SeismicRecording3C) of 400001 samples at 0.01 s, 270000 at 1/75 s (and 131072 at 0.005 s, thorough)",
         bounds=dict(depth="2 quick; 3 thorough (every first operation is a root explored 2 further)",
                     menu=20, trim_intervals_judged_per_state=13),
         exhaustive=True,
